@@ -52,6 +52,22 @@ def unsafe_under(data, T):
         return set(tree.get_unsafe_set())
 
 
+_ALLD = None
+
+
+def all_defaults():
+    global _ALLD
+    if _ALLD is None:
+        _ALLD = set()
+        for k in iogen.facts()["kinds"]:
+            _ALLD |= set(k["trust"].get("defaults") or [])
+            for v in k.get("variants") or []:
+                for s in v.get("slots") or []:
+                    if isinstance(s.get("child_trust"), list):
+                        _ALLD |= set(s["child_trust"])
+    return _ALLD
+
+
 def sentences(got, data, T):
     """the property's sentences on the NodeInfo streams of the implementation"""
     fails = []
@@ -70,6 +86,10 @@ def sentences(got, data, T):
         bad = unsafe_under(data, T)
     except Exception:
         return fails
+    root_bad = bad
+    # a name can be default-trusted for one node kind and untrusted for another; rows do not say which kind they are,
+    # so the per-row sentences only use names that no kind trusts by default
+    bad = {b for b in bad if b not in all_defaults()}
     rows = got["walk"]
     for i, r in enumerate(rows):
         named = not r.val.startswith(("json-type(", "b'", 'b"', "bytearray("))
@@ -86,8 +106,8 @@ def sentences(got, data, T):
             if off:
                 fails.append(f"false-safe: row {r.key}: {r.val} is marked fully safe but {off[0].key}: {off[0].val} beneath it is untrusted")
                 break
-    if rows and rows[0].is_safe != (len(bad) == 0):
-        fails.append(f"root-safe-mismatch: root is_safe={rows[0].is_safe} but the untrusted set under this trust is {sorted(bad)[:3]}")
+    if rows and rows[0].is_safe != (len(root_bad) == 0):
+        fails.append(f"root-safe-mismatch: root is_safe={rows[0].is_safe} but the untrusted set under this trust is {sorted(root_bad)[:3]}")
     return fails
 
 
